@@ -155,6 +155,8 @@ class Tracer:
                 out.add(('fall', t, v))
             elif ex == 'try':
                 out.add(('fall', t, 'err'))
+            elif ex == 'panic' and not self.keep_panics:
+                continue
             else:
                 out.add((ex, t, v))
         return out
@@ -343,9 +345,15 @@ class Tracer:
             return {('ret', t, v) if ex == 'fall' else (ex, t, v) for (ex, t, v) in r}
         if k == 'break':
             r = self.expr(e.get('e'))
-            return {('break', t, v) if ex == 'fall' else (ex, t, v) for (ex, t, v) in r}
+            kind = 'break' if e.get('target') is None else f'break:{e["target"]}'
+            return {(kind, t, v) if ex == 'fall' else (ex, t, v) for (ex, t, v) in r}
         if k == 'continue':
-            return {('continue', Z, 'unk')}
+            return {('continue' if e.get('target') is None else f'continue:{e["target"]}', Z, 'unk')}
+        if k == 'lblock':
+            # `'l: { .. break 'l value .. }`
+            r = self.expr(e['body'])
+            mine = f'break:{e.get("hid")}'
+            return {('fall', t, v) if ex == mine else (ex, t, v) for (ex, t, v) in r}
         if k == 'call':
             return self.call(e)
         if k == 'struct':
@@ -549,8 +557,17 @@ class Tracer:
             if src is not None:
                 self.bind_from(e['pat'], src + '[*]')
 
+        hid = e.get('hid')
+
+        def is_break(ex):
+            return ex == 'break' or (hid is not None and ex == f'break:{hid}')
+
+        def is_continue(ex):
+            return ex == 'continue' or (hid is not None and ex == f'continue:{hid}')
+
         def body():
             b = self.expr(e['body'])
+            b = {('break' if is_break(ex) else ('continue' if is_continue(ex) else ex), t, v) for (ex, t, v) in b}
             cont = {self.starred(t) for (ex, t, v) in b if ex in ('fall', 'continue')}
             out = set()
             if k == 'for':
@@ -563,7 +580,7 @@ class Tracer:
                     for c in cont:
                         if c:
                             out.add(('fall', c + self.starred(t), v))
-                elif ex in ('ret', 'try'):
+                elif ex in ('ret', 'try', 'panic') or ex.startswith('break:') or ex.startswith('continue:'):
                     out.add((ex, self.starred(t), v))
                     for c in cont:
                         if c:
